@@ -15,7 +15,7 @@ TraceLog == ndJsonDeserialize(IOEnv.VERIF_TRACE)
 AllowedKeys == {r.key : r \in ToSet(ndJsonDeserialize(IOEnv.VERIF_ALLOWED_FILE))}
 
 VARIABLES l, cfg
-tvars == <<st, from, rcpts, boxes, maxRcpt, reply, l, cfg>>
+tvars == <<st, from, rcpts, boxes, maxRcpt, reply, tls, l, cfg>>
 
 Dev(key) == key \in AllowedKeys /\ PrintT(<<"DEVIATION", key, l>>)
 FailSet == IF "failMailbox" \in DOMAIN cfg /\ cfg.failMailbox # "" THEN {cfg.failMailbox} ELSE {}
@@ -59,12 +59,21 @@ TrReset == /\ Is("reset")
            /\ st' = "QUIT" /\ from' = NoSender /\ rcpts' = <<>>
            /\ boxes' = [m \in Mailbox |-> <<>>]
            /\ maxRcpt' = Ev.cfg.maxRcpt
+           /\ tls' = IF "tls" \in DOMAIN Ev.cfg /\ Ev.cfg.tls THEN "avail" ELSE "off"
            /\ reply' = Ok
            /\ SnapOK(boxes') /\ Mark
 
 TrConnect == /\ Is("connect") /\ Connect /\ Done
 
-TrHello == /\ Cmd("helo") /\ Hello(Ev.verb, Ev.arg) /\ Done
+(* an accepted EHLO lists STARTTLS exactly while it can be used *)
+TrHello == /\ Cmd("helo") /\ Hello(Ev.verb, Ev.arg)
+           /\ (Has("adv") /\ Ev.verb = "EHLO" /\ reply'.cls = "ok") => (Ev.adv = Advertised)
+           /\ Done
+(* STARTTLS: when the contract accepts it the driver negotiated TLS (Ev.upgraded) and the rest of the *)
+(* dialogue runs encrypted                                                                           *)
+TrStartTLS == /\ Cmd("starttls") /\ StartTLS
+              /\ (reply'.cls = "ok") => (Has("upgraded") /\ Ev.upgraded)
+              /\ Done
 TrMail ==
     /\ Cmd("mail")
     /\ Mail(Ev.sender,
@@ -110,7 +119,7 @@ TrBody ==
     /\ Done
 TrRset == /\ Cmd("rset") /\ Rset /\ Done
 TrHarmless == /\ Is("cmd") /\ Ev.c \in {"noop", "vrfy"} /\ Harmless /\ Done
-TrRefused == /\ Is("cmd") /\ Ev.c \in {"unimpl", "unknown", "short", "empty", "garbage", "long", "starttls",
+TrRefused == /\ Is("cmd") /\ Ev.c \in {"unimpl", "unknown", "short", "empty", "garbage", "long",
                                       "authother", "authplainnoarg", "authbare"}
              /\ Refused /\ Done
 TrAuthPlain == /\ Cmd("authplain") /\ Auth("plain") /\ Done
@@ -138,7 +147,7 @@ TrCut == /\ Is("cut") /\ Ev.returned
 TrSkipped == /\ Is("skipped") /\ st # "DATA"
              /\ UNCHANGED smtpvars /\ SnapOK(boxes) /\ cfg' = cfg /\ Mark
 
-TraceNext == \/ TrSkipped \/ TrCut \/ TrReset \/ TrConnect \/ TrHello \/ TrMail \/ TrRcpt \/ TrData \/ TrBody \/ TrRset
+TraceNext == \/ TrStartTLS \/ TrSkipped \/ TrCut \/ TrReset \/ TrConnect \/ TrHello \/ TrMail \/ TrRcpt \/ TrData \/ TrBody \/ TrRset
              \/ TrHarmless \/ TrRefused \/ TrAuthPlain \/ TrAuthLogin \/ TrCred \/ TrQuit \/ TrEnd
 
 TraceSpec == TraceInit /\ [][TraceNext]_tvars
